@@ -103,7 +103,8 @@ claim("C20",
       "Decides that an item written by History::flush is marked clean on every path back to the loop head, that the skip edge depends on "
       "the dirty flag, that imported items are constructed clean and new ones dirty, that the #epoch line precedes its command in the "
       "same iteration under write_timestamps, the reviewed (append, unsaved-only) modes of all flush callers, and that any position cached "
-      "in a History field and used to select items is maintained by every method that replaces the item list.",
+      "in a History field and used to select items is maintained by every method that replaces the item list; that add appends a fresh id, nothing "
+      "else inserts, import adds every non-comment line verbatim and flush walks the list front to back.",
       "Trusted: rustc MIR; format literals recovered from macro call-site snippets. Not decided: file contents over all interleavings.",
       ST + "must-pass-through on MIR CFG, aggregate-constant inspection, who-may-call", "DESIGN.md §3 C20")
 
